@@ -117,32 +117,34 @@ PROPS = {
         ],
     },
     "C02": {
-        "modules": ["Hannibal.Props.C02", "Hannibal.Props.C02Current"],
+        "modules": ["Hannibal.Props.C02", "Hannibal.Props.C02Current", "Hannibal.Props.C02Guarded"],
         "theorems": ["Hannibal.C02_holds", "Hannibal.C02_current", "Hannibal.C02_split", "Hannibal.C02t_holds",
-                     "Hannibal.C02orig_holds", "Hannibal.C02orig_current"],
+                     "Hannibal.C02orig_holds", "Hannibal.C02orig_current", "Hannibal.C02g_holds"],
         "cases": {"quick": {"C02": 1500}, "thorough": {"C02": 20000, "C06": 3000, "C04": 3000}},
         "assumptions": COMMON_ASSUMPTIONS + [
             "operation ids of the trace are fresh (opIdsFresh, checked on every real trace by monC02wf)",
-            "'an await begun after a graceful termination returns Ok' (monC02t) is proved only under "
-            "noCancelAfterStopped (the loop task is not cancelled between the return of stopped() and its end: the "
-            "loop future has no suspension point there, the model allows a cancel there); on real traces the clause "
-            "is checked directly",
+            "'an await begun after a graceful termination returns Ok' (monC02t) is false of unguarded runs (the model "
+            "then allows a cancel between the return of stopped() and the end of the task, where the loop future has "
+            "no suspension point); it is proved for guarded runs (C02g_holds: the property as first written), which "
+            "are the runs the acceptor accepts, and checked directly on real traces",
             "'provided user handlers themselves terminate': handler scripts of the harness always do",
         ],
     },
     "C06": {
         "modules": ["Hannibal.Props.C06", "Hannibal.Props.C06Send", "Hannibal.Props.C06Quiet", "Hannibal.Props.C06Split",
-                    "Hannibal.Props.C06Current"],
+                    "Hannibal.Props.C06Current", "Hannibal.Props.C06Guarded"],
         "theorems": ["Hannibal.C06_holds", "Hannibal.C06_current", "Hannibal.wellWired06_current", "Hannibal.monC06_split",
-                     "Hannibal.C06s_holds", "Hannibal.C06s_current", "Hannibal.C06q_holds", "Hannibal.C06q_current"],
+                     "Hannibal.C06s_holds", "Hannibal.C06s_current", "Hannibal.C06q_holds", "Hannibal.C06q_current",
+                     "Hannibal.C06r_holds", "Hannibal.C06g_holds"],
         "cases": {"quick": {"C06": 1500}, "thorough": {"C06": 20000, "C02": 3000, "C11": 3000}},
         "assumptions": COMMON_ASSUMPTIONS + [
             "single-actor part: 'children are released and stop gracefully', 'the registry treats it as not running' "
             "and 'other actors keep working' are the multi-actor clauses; they are carried by C16 (release at any "
             "termination cause), C08 (term events of failed instances) and by acceptance of every other actor's trace",
-            "'a send begun after the failure never returns Ok' is false of the model between the failure and the end "
-            "of the task (c06LateSend: the receiver lives until taskDone; in the real code both happen in one poll); "
-            "it is trace-checked (monC06t) and proved from the end of the task on (C06s_holds)",
+            "'a send begun after the failure never returns Ok' is false of unguarded runs between the failure and the "
+            "end of the task (c06LateSend: the receiver lives until taskDone; in the real code both happen in one "
+            "poll); it is proved for guarded runs (C06r_holds, and C06g_holds: the single-actor part as first "
+            "written), which are the runs the acceptor accepts, and trace-checked (monC06t)",
             "'nothing pending at quiescence' is proved for traces with fresh operation ids (uniqueBegins, checked on "
             "every real trace by monUniq)",
             "every single fault kind x position is sampled by the generator (start error / panic, handler panic, stopped "
